@@ -394,7 +394,9 @@ func (vm *Type) Run(retResult bool) (value.Type, error) {
 			nip := m.IP()
 			if nip == nil {
 				m.ResetSP()
-				m.Push(val)
+				if retResult { // otherwise nobody takes the value off the stack
+					m.Push(val)
+				}
 				ip = len(*cs) - 1
 				break
 			}
